@@ -6,7 +6,6 @@ import (
 	"io"
 	"log"
 	"runtime"
-	"runtime/debug"
 	"sort"
 
 	"github.com/robfig/soy/ast"
@@ -72,7 +71,9 @@ func (s *state) errRecover(errp *error) {
 	if e := recover(); e != nil {
 		switch e := e.(type) {
 		case runtime.Error:
-			*errp = s.errFromNode("%s: %v\n%v", s.callAnnotation(), e, string(debug.Stack()))
+			// (no stack trace in the text: goroutine ids and argument addresses
+			// would make the same failure read differently every time.)
+			*errp = s.errFromNode("%s: %v", s.callAnnotation(), e)
 		default:
 			*errp = s.errFromNode("%s: %v", s.callAnnotation(), e)
 		}
@@ -380,10 +381,9 @@ func (s *state) evalPrint(node *ast.PrintNode) {
 		func() {
 			defer func() {
 				if err := recover(); err != nil {
-					s.errorf("panic in %v: %v\nexecuted: %v(%q, %v)\n%v",
+					s.errorf("panic in %v: %v\nexecuted: %v(%q, %v)",
 						directiveNode, err,
-						directiveNode.Name, result, args,
-						string(debug.Stack()))
+						directiveNode.Name, result, args)
 				}
 			}()
 			result = directive.Apply(result, args)
@@ -615,7 +615,7 @@ func (s *state) evalFunc(node *ast.FunctionNode) data.Value {
 		}
 		defer func() {
 			if err := recover(); err != nil {
-				s.errorf("panic in %s(%v): %v\n%v", node.Name, args, err, string(debug.Stack()))
+				s.errorf("panic in %s(%v): %v", node.Name, args, err)
 			}
 		}()
 		r := fn.Apply(args)
